@@ -340,10 +340,11 @@ def cropOp (P : Crop.Perms) (kind : Value.Val) (k : Nat) (s : Crop.St (List Sym)
   | "sow" =>
     let sw := sweepOf (getObj op "sweep")
     let isCases := getBool op "cases"
-    let shArg := if isCases then none else some (getNat op "shuffle")
-    match Crop.opSow P s sw shArg (optNat op "bs") (optNat op "nb") with
+    -- sow_combos: "shuffle" absent = the default False; "shuffle_none" = None was given (the crop keeps its own)
+    let shArg := if isCases || getBool op "shuffle_none" then none else some (getNat op "shuffle")
+    match Crop.opSow P s sw (!isCases) shArg (optNat op "bs") (optNat op "nb") with
     | .ok s' => (s', Json.null)
-    | .error e => ({ s with obj := Crop.sowAttrs s.obj shArg (optNat op "bs") (optNat op "nb") }, err (cropErr e))
+    | .error e => ({ s with obj := Crop.sowAttrs s.obj (!isCases) shArg (optNat op "bs") (optNat op "nb") }, err (cropErr e))
   | "grow" =>
     match s.dir with
     | none => (s, err "missingFile")
